@@ -17,6 +17,11 @@ tvars == <<l, rej, engines, offsets, pkg>>
 \* does the system action named by the event accept it (pure part) ...
 StepOK(e, idx) ==
   CASE e.ev = "BooleanOp" -> BooleanOpOK(e, idx)
+    [] e.ev = "RectClip" -> RectClipOK(e, idx)
+    [] e.ev = "RectClipLines" -> RectClipLinesOK(e, idx)
+    [] e.ev = "Measure" -> MeasureOK(e, idx)
+    [] e.ev = "Trim" -> TrimOK(e, idx)
+    [] e.ev = "Simplify" -> SimplifyOK(e, idx)
     [] OTHER -> Chk("UNKNOWN-EVENT", idx, FALSE)
 
 \* ... and its effect on the system state
@@ -31,7 +36,7 @@ TNext ==
          nr == IF ok THEN rej ELSE Append(rej, l)
      IN  /\ rej' = nr
          /\ StepEffect(e)
-         /\ (l = Len(Trace)) => PrintT(<<"TRACE_DONE", l, nr>>)
+         /\ (l = Len(Trace)) => PrintT(<<"TRACE_DONE", l, Len(nr)>>)
   /\ l' = l + 1
 
 TSpec == TInit /\ [][TNext]_tvars
